@@ -388,7 +388,7 @@ def chunked_to_cgi(st):
 def run_variant(ctx, v, model, streams, label):
     import srv as srvmod
     s = srvmod.Server(ctx, "h1conn_" + v["name"], 'cgi.assign = (".sh" => "/bin/sh")\nindex-file.names = ("index.html")\nserver.max-request-field-size = %d\n' % MAXF + v["conf"],
-                      files={"index.html": b"INDEX", "cgi/e.sh": ECHO_SH}, modules=["mod_cgi"])
+                      files={"index.html": b"INDEX", "cgi/e.sh": ECHO_SH}, modules=["mod_cgi"], sanitize=(ctx.tier == "thorough"))
     rng = ctx.rng.__class__(ctx.seed * 31337 + sum(map(ord, v["name"])))
     jobs = []
     for st in streams:
@@ -450,7 +450,7 @@ def run_variant(ctx, v, model, streams, label):
 
 def run_system(ctx, label="h1-connection"):
     import srv as srvmod
-    srvmod.build_server()
+    srvmod.build_server(ctx.tier == "thorough")
     model = vlib.model_driver("C01")
     thorough = ctx.tier == "thorough"
     streams = gen_streams(ctx, 2500 if thorough else 520)
